@@ -1240,6 +1240,48 @@ def b_run_validation(S):
         slice_from="for err_col in", default_num="Nat", join="tuple")
 
 
+def b_validator_methods(S):
+    """`StackedTracesValidator.validation_method` (no candidates; neighbour set = LineString candidates whose buffer of radius t·o·m meets the trace;
+    alongside test on that set; small-triangle test against EVERY candidate), `MultipleCrosscutValidator.validation_method` (more than two
+    intersection points with one candidate) and `SimpleGeometryValidator.validation_method`."""
+    src = standalone(S[TVALS], "StackedTracesValidator.validation_method", [(r"\n    splitter_trace: LineString\n", "\n")])
+    fn = find_func(ast.parse(src), "validation_method")
+    calls = {ast.unparse(n.func): n for n in ast.walk(fn) if isinstance(n, ast.Call) and ast.unparse(n.func) in ("segment_within_buffer", "split_to_determine_triangle_errors")}
+    c1, c2 = calls.get("segment_within_buffer"), calls.get("split_to_determine_triangle_errors")
+    if c1 is None or [ast.unparse(a) for a in c1.args] != ["geom", "trace_candidates_multils"] or {k.arg: ast.unparse(k.value) for k in c1.keywords} != {
+            "snap_threshold": "snap_threshold", "snap_threshold_error_multiplier": "snap_threshold_error_multiplier", "overlap_detection_multiplier": "overlap_detection_multiplier",
+            "stacked_detector_buffer_multiplier": "stacked_detector_buffer_multiplier"}:
+        raise Untranslatable("StackedTracesValidator: call of segment_within_buffer changed")
+    if c2 is None or [ast.unparse(a) for a in c2.args] != ["geom", "splitter_trace"] or {k.arg: ast.unparse(k.value) for k in c2.keywords} != {
+            "snap_threshold": "snap_threshold", "triangle_error_snap_multiplier": "triangle_error_snap_multiplier"}:
+        raise Untranslatable("StackedTracesValidator: call of split_to_determine_triangle_errors changed")
+    t1, t2 = ast.get_source_segment(src, c1), ast.get_source_segment(src, c2)
+    C = {"trace_candidates.geometry.values": "trace_candidates",
+         "MultiLineString([tc for tc in trace_candidates.geometry.values if isinstance(tc, LineString) and tc.buffer(snap_threshold * overlap_detection_multiplier * snap_threshold_error_multiplier).intersects(geom)])":
+             "(List.filter (fun tc => is_ls tc && near_buffer tc (snap_threshold * overlap_detection_multiplier * snap_threshold_error_multiplier) geom) trace_candidates)",
+         t1: "(alongside geom trace_candidates_multils)", t2: "(triangle geom splitter_trace)"}
+    T = {"trace_candidates.geometry.values": "List L", t1: "Bool", t2: "Bool", "trace_candidates_multils": "List L",
+         "MultiLineString([tc for tc in trace_candidates.geometry.values if isinstance(tc, LineString) and tc.buffer(snap_threshold * overlap_detection_multiplier * snap_threshold_error_multiplier).intersects(geom)])": "List L"}
+    out = translate_function(
+        src, "validation_method", "stacked_validation",
+        {"geom": "L", "trace_candidates": "List L", "snap_threshold": "Rat", "snap_threshold_error_multiplier": "Rat", "overlap_detection_multiplier": "Rat"}, "Bool", C, types=T,
+        extra_params=[("{L}", "Type"), ("is_ls", "L → Bool"), ("near_buffer", "L → Rat → L → Bool"), ("alongside", "L → List L → Bool"), ("triangle", "L → L → Bool")],
+        slice_from="if len(trace_candidates) == 0", default_num="Rat", join="tuple")
+    src2 = standalone(S[TVALS], "MultipleCrosscutValidator.validation_method")
+    C = {"any(trace_candidates.intersects(geom))": "(List.any trace_candidates (fun tc => meets tc geom))", "trace_candidates.intersection(geom)": "(List.map (fun tc => inter_points tc geom) trace_candidates)",
+         "any((len(list(geom.geoms)) > 2 for geom in intersection_geoms if isinstance(geom, MultiPoint)))": "(List.any intersection_geoms (fun g => match g with | some n => decide (n > 2) | none => false))"}
+    T = {"any(trace_candidates.intersects(geom))": "Bool", "trace_candidates.intersection(geom)": "List (Option Nat)", "intersection_geoms": "List (Option Nat)",
+         "any((len(list(geom.geoms)) > 2 for geom in intersection_geoms if isinstance(geom, MultiPoint)))": "Bool"}
+    out += "\n" + translate_function(
+        src2, "validation_method", "crosscut_validation", {"geom": "L", "trace_candidates": "List L"}, "Bool", C, types=T,
+        extra_params=[("{L}", "Type"), ("meets", "L → L → Bool"), ("inter_points", "L → L → Option Nat")], slice_from="if not any(trace_candidates.intersects", default_num="Nat", join="tuple")
+    src3 = standalone(S[TVALS], "SimpleGeometryValidator.validation_method")
+    out += "\n" + translate_function(
+        src3, "validation_method", "simple_geometry_validation", {}, "Bool", {"geom.is_simple": "is_simple", "geom.is_ring": "is_ring"},
+        types={"geom.is_simple": "Bool", "geom.is_ring": "Bool"}, extra_params=[("is_simple", "Bool"), ("is_ring", "Bool")], slice_from="return geom.is_simple", default_num="Nat")
+    return out
+
+
 def b_determine_intersect(S):
     """`determine_intersect`: which ordered pair of sets an X/Y node between two sets is recorded under, or ValueError"""
     fn = find_func(ast.parse(S[REL]), "determine_intersect")
@@ -1906,6 +1948,7 @@ ITEMS: List[Item] = [
     Item("UnderlapValidator", TVALS, ["C10", "C13"], b_underlap_validator),
     Item("ValidationUtils", TVU, ["C10", "C16"], b_validation_utils),
     Item("SharpCorners", TVALS, ["C10"], b_sharp_corners),
+    Item("ValidatorMethods", TVALS, ["C10", "C02"], b_validator_methods),
     Item("Stacking", TVU, ["C10"], b_stacking, extra_modules=[GENERAL]),
     Item("AreaValidator", TVALS, ["C10"], b_area_validator),
     Item("ValidationDefaults", TVAL, ["C10", "C03", "C16"], b_validation_defaults),
